@@ -322,3 +322,27 @@ func memberClass(ms []*J) string {
 	}
 	return c
 }
+
+// memberTypes: the JSON Schema type names of the members, in first-occurrence order (integral numbers as "integer" when
+// asked for and every number member is integral).
+func memberTypes(ms []*J, preferInteger bool) []string {
+	allIntegral := true
+	for _, m := range ms {
+		if m.T == "q" && m.Q%4 != 0 {
+			allIntegral = false
+		}
+	}
+	seen := map[string]bool{}
+	var out []string
+	for _, m := range ms {
+		t := map[string]string{"n": "null", "b": "boolean", "q": "number", "s": "string", "a": "array", "o": "object"}[m.T]
+		if t == "number" && preferInteger && allIntegral {
+			t = "integer"
+		}
+		if !seen[t] {
+			seen[t] = true
+			out = append(out, t)
+		}
+	}
+	return out
+}
